@@ -3,4 +3,5 @@ import McpModel.Base.Proto
 import McpModel.EventStore.Props
 import McpModel.EventStore.Driver
 import McpModel.ClientStream.Props
+import McpModel.ClientStream.AsBuilt
 -- (McpModel.ClientStream.Driver defines its own top-level `main`; it is built by the lean_exe drv_clientstream)
